@@ -1165,6 +1165,11 @@ where
             let blob_opt = safe.blobs.write().await.pop();
             if let Some(blob) = blob_opt {
                 safe.active_blob = Some(Box::new(ASRwLock::new(blob)));
+                // As in `pop_active`: records can be added only while the index of the active blob is in memory.
+                // The blob is installed first, so that it is never owned by this future alone.
+                if let Some(active) = safe.active_blob.as_ref() {
+                    active.write().await.load_index().await?;
+                }
                 Ok(())
             } else {
                 Err(Error::uninitialized().into())
